@@ -166,7 +166,7 @@ def handle : List String → String
   | ["c13.e2e.enum", m, dir, c, _k] => (enumExpect m dir c).getD "bad-op"
   | ["c13.e2e.grp", m, dir, dn, key, pat, _k] => (grpExpect m dir dn key pat).getD "bad-op"
   | ["c13.e2e", m, a, n, sh, _k] =>
-    if (a == "z" || a == "p") && (["plain", "cont", "gz", "salt", "saltgz"].contains sh || (["wrong", "null"].contains sh && !m.contains '/')) && e2eKnown m
+    if (a == "z" || a == "p") && (["plain", "cont", "gz", "salt", "saltgz", "gzall"].contains sh || (["wrong", "null"].contains sh && !m.contains '/')) && e2eKnown m
     then e2eOk m a n sh else "bad-op"
   | _ => "bad-op"
 
